@@ -26,6 +26,7 @@ ASSUMPTIONS = [
     "dense filter enums only (dali_width() == len(enum)); sparse user enums are an observation, not a violation",
     "autodiscover(int n) scans 0..n-1 as coded (the docstring is ambiguous); 'healthy' = status bits 'short address is mask' and 'reset state' clear",
 ]
+SANITY = ["scan_runs", "scan_runs_with_fault", "scan_map_entries"]
 BOUNDS = {"quick": "input values: all for resolution<=8, structured above; scan: N<=2 devices (+3 on a reduced archetype set), 1 fault",
           "thorough": "input values: all for resolution<=12; scan: N<=3, 2 faults on N<=2"}
 
@@ -250,6 +251,10 @@ def scanned_addresses(spec):
 
 
 def judge_scan(res, cfg, bus, devs, m, kind, val, n):
+    observe(res, "scan_runs")
+    if bus.injected:
+        observe(res, "scan_runs_with_fault")
+    observe(res, "scan_map_entries", len(m.mapping))
     from dali.exceptions import DALISequenceError
     case = dict(cfg, t="scan", injected=[list(i) for i in bus.injected])
     arch = archetypes()
